@@ -122,11 +122,14 @@ func (p *MP4ChunkParser) readUntil(contentEnd int) error {
 		}
 		n, err := p.r.Read(p.buf[p.contentEnd:contentEnd])
 		p.contentEnd += n
+		if p.contentEnd >= contentEnd {
+			// The requested bytes are there. An error delivered together with them (typically io.EOF)
+			// is seen again on the next read, so that the result does not depend on how the reader
+			// splits the stream.
+			return nil
+		}
 		if err != nil {
 			return err
-		}
-		if p.contentEnd >= contentEnd {
-			return nil
 		}
 	}
 }
